@@ -2,7 +2,7 @@
    liquidity-point bookkeeping (the escrow / order-book identities are stated over the ledger model, see C04). *)
 From Coq Require Import NArith List Bool.
 From V Require Import U64 Extracted Dex DexProofs.
-From V Require Ledger LedgerConservation LedgerHistory DexBatch DexBatchProofs.
+From V Require Ledger LedgerConservation LedgerHistory DexBatch DexBatchProofs LedgerEscrowFits.
 Import ListNotations.
 Local Open Scope N_scope.
 
@@ -97,3 +97,15 @@ Example ex_withdraw :
   handle_withdraw (mkPool [(1, 50); (2, 30); (3, 20)] 100) 1000 500 [(2, 50); (2, 100); (9, 100)] =
   WDone (mkPool [(1, 50); (3, 20)] 70) 700 350 [(2, 15, 150, 75); (2, 15, 150, 75)].
 Proof. vm_compute. reflexivity. Qed.
+
+(* Paying an escrowed amount (closing an order) or a pool balance (rewards, refunds) out to an account can never overflow the
+   receiver's balance on a state satisfying the ledger invariant: the amount is part of the recorded total, which is below 2^64.
+   (CloseOrder's overflow pre-check is therefore unreachable; a change to it cannot be observed on reachable states.) *)
+Theorem C20_escrow_credit_fits : forall s id o buyer,
+  LedgerHistory.LInv s -> Ledger.aget id (Ledger.l_orders s) = Some o ->
+  Ledger.nget buyer (Ledger.l_accounts s) + Ledger.o_amount o < two64.
+Proof. exact LedgerEscrowFits.escrow_credit_fits. Qed.
+Print Assumptions C20_escrow_credit_fits.
+Theorem C20_pool_credit_fits : forall s p a,
+  LedgerHistory.LInv s -> Ledger.nget a (Ledger.l_accounts s) + Ledger.nget p (Ledger.l_pools s) < two64.
+Proof. exact LedgerEscrowFits.pool_credit_fits. Qed.
